@@ -21,6 +21,10 @@ RULE = ('stub package of 6 user-defined chemicals with dyadic MW, Hf, Hvap(298.1
         'of the members and read dH of members and copies. Single-phase streams live on the reaction package or on a permuted '
         'one, may have proxies, and a pre-history of H / C reads and T / flow / phase changes (and changes back) runs through the '
         'handles before the operation is applied through one of them; the H/T solver stub may raise in chosen phases. '
+        'The pre-history also makes COPIES (stream.copy(), copy(thermo=own package), copy.copy; of the original, of proxies, of '
+        'copies): a read stream is copied, the copy is moved to another state and read, the original is read again and / or '
+        'copied again, and the operation goes through any of them; after the operation H is read back through every stream and '
+        'the state of every stream (not only the reacted one) is compared. '
         'In 20 % of the cases the package is edited after compilation (chemical.Hf = v, refresh_constants on either package, '
         'sometimes an edit that is not propagated); one tenth extra cases run gas streams on a Peng-Robinson package, '
         'interleaving temperature solves with enthalpy reads of the same and of new streams, with a second, never-solved '
@@ -33,7 +37,8 @@ ASSUMPTIONS = ['H/T inversion (mixture.solve_T_at_HP, xsolve_T_at_HP; flexsolve 
                'the isothermal clause as written holds where the sensible enthalpies vanish (reference state); elsewhere the '
                'general identity with the Kirchhoff term is proved and checked',
                'float rounding is not modelled: values compared to 1e-9 relative (enthalpy flows relative to |Hnet|+|Q|)']
-TRUSTED = ['model coq/C06/Model.v is hand-written from Reaction.dH, Reaction.adiabatic_reaction, Stream.Hf/Hnet/H setter; '
+TRUSTED = ['model coq/C06/Model.v is hand-written from Reaction.dH, Reaction.adiabatic_reaction, Stream.Hf/Hnet/H setter, '
+           'Stream._get_property, Stream.proxy and Stream.copy (own flows / thermal condition, reset_cache: new key list and new dictionary); '
            'it reuses coq/C05/Model.v for the reaction itself; tie = correspondence check',
            'stub chemicals: tmo.Chemical(search_db=False, MW, Hf, Cn, Hvap, Hfus, phase) — their H model is Cn*(T-298.15)']
 
